@@ -60,5 +60,5 @@ SPEC = {
         "html.EscapeString / html/template only escape text: the viewer's summary is classified by its fixed phrases",
     ],
     "trusted_base": [],
-    "own_objects": ["theories/Props/C11.vo", "theories/Proofs/ApprovalFacts.vo", "theories/Model/Approval.vo"],
+    "own_objects": ["theories/Props/C11.vo", "theories/Proofs/ApprovalOracle.vo", "theories/Proofs/ApprovalFacts.vo", "theories/Model/Approval.vo"],
 }
